@@ -94,7 +94,9 @@ def gen_line(rng, names, bad=0.08):
         s = rng.choice([f"# {n}=={v}", "", "   ", f"{n}>={v}", f"{n}<={v}", f"{n}>{v}", f"{n}<{v}", f"{n}=={v},<{w}",
                         f"{n}=={v}=={w}", f"{n}=={v}#{w}", f"#{n}"])
     if rng.random() < 0.15 and "#" not in s:
-        s = s + rng.choice([" # note", "#x==1", "  # q==9"])
+        # inline comments may contain anything, also the characters of the rejected specifiers
+        s = s + rng.choice([" # note", "#x==1", "  # q==9", "  # keep in sync with a1, do not bump", " # needs >=2 <3",
+                            "#~=1.0 != 2", " # a==1==2"])
     return pad(rng, s)
 
 
@@ -129,7 +131,7 @@ def mk(kind, site, index, rec, steps, tags=(), group=None):
 
 WITNESSES = [["p==abc", "p==1.0"], ["p==", "p"], ["p", "p==abc"], ["p==1.0", "p==1.0.0", "p==2"], ["p", "p", "p==1.5"],
              ["p==1.0", "q==1.0", "p==0.9"], ["p==1.10", "p==1.9", "p"], ["p~=1.0", "p==2.0"], ["p==_unpinned_version", "p==1"],
-             ["p>=1", "p==1.0 # c", "#p==9"], ["p==1.0==2", "p==1.0"], ["p==", "p==1.0", "p==abc"],
+             ["p>=1", "p==1.0 # c", "#p==9"], ["p==2.0  # pinned, see q<3", "p==1.0"], ["p # x>=1, y!=2", "p==1.5 #~=1"], ["p==1.0==2", "p==1.0"], ["p==", "p==1.0", "p==abc"],
              # witnesses of the fixed findings C20-F1..F4 (every permutation is run; must be green on /repo, and are
              # the first VIOLATIONs on a tree without the fix: commits)
              ["p", "p=="], ["p!=1.0", "p==2.0"], ["p~=1.0", "p!=1.0", "p"], ["p==_unpinned_version"],
